@@ -266,7 +266,7 @@ class _CompxsIO(cccc.Stream):
         """Write the composition independent data block."""
         with self.createRecord() as record:
             if self._metadata["fileWideChiFlag"]:
-                self._metadata["fileWideChi"] = record.rwMatrix(
+                self._metadata["fileWideChi"] = record.rwDoubleMatrix(
                     self._metadata["fileWideChi"],
                     self._metadata["fileWideChiFlag"],
                     self._metadata["numGroups"],
@@ -287,7 +287,7 @@ class _CompxsIO(cccc.Stream):
 
     def _rwDelayedProperties(self, record, numDelayedFam):
         if numDelayedFam:
-            self._metadata["delayedChi"] = record.rwMatrix(
+            self._metadata["delayedChi"] = record.rwDoubleMatrix(
                 self._metadata["delayedChi"],
                 self._metadata["numGroups"],
                 numDelayedFam,
